@@ -157,29 +157,59 @@ def set_type_validate(ctx):
     st = repo.cls('dataflows.processors.set_type:set_type')
     pr = st.methods['process_resources']
     pd = st.methods['process_datapackage']
-    calls = [c for c in own_nodes(pr.node) if isinstance(c, ast.Call) and u(c.func) == 'schema_validator']
-    ok = len(calls) == 1
-    if ok:
-        kw = {k.arg: u(k.value) for k in calls[0].keywords}
-        ok = kw.get('on_error') == 'self.on_error' and kw.get('field_names') == 'field_names' and len(calls[0].args) == 2
-    run.check(ok, 'R20', pr.where, pr.qualname, 'schema_validator(res.res, it, field_names=field_names, on_error=self.on_error)',
+    from sa.pathvals import PathValues
+    from sa.model import norm_compare
+    from sa.paths import Enumerator as _En
+    prn = ctx.N(pr)
+    rloops = [l for l in own_nodes(prn.node) if isinstance(l, ast.For) and pseudo(l.iter) == prn.params[1] and isinstance(l.target, ast.Name)]
+    if len(rloops) != 1:
+        raise AnalysisError('set_type.process_resources: resource loop not found')
+    rv = rloops[0].target.id
+    ok_pol = ok_names = ok_tr = True
+    seen_tr = set()
+    n_val = 0
+    for p_ in _En(where=prn.qualname).body_paths(rloops[0]):
+        pv = PathValues(p_)
+        ys = []
+        for it_ in p_.items:
+            if it_.kind == 'stmt' and isinstance(it_.node, ast.Expr) and isinstance(it_.node.value, ast.Yield):
+                ys.append(it_.node.value)
+        # the yielded value with the values known on this path
+        from sa.pathvals import subst
+        vals = [subst(y.value, pv.env) for y in ys]
+        for v in vals:
+            if not (isinstance(v, ast.Call) and u(v.func) == 'schema_validator'):
+                continue
+            n_val += 1
+            kw = {k.arg: k.value for k in v.keywords}
+            fn = kw.get('field_names')
+            ok_pol = ok_pol and kw.get('on_error') is not None and u(kw['on_error']) == 'self.on_error' and len(v.args) == 2 and \
+                match_expr('%s.res' % rv, v.args[0]) is not None
+            ok_names = ok_names and fn is not None and (match_expr('self.field_names.get(%s.res.name, [])' % rv, fn) is not None or
+                                                        match_expr('self.field_names[%s.res.name]' % rv, fn) is not None)
+            has_tr = None
+            for t, pol in pv.guards:
+                t, pol = norm_compare(t, pol)
+                if match_expr('self.transform is None', t) is not None:
+                    has_tr = not pol
+                elif pseudo(t) == 'self.transform':
+                    has_tr = pol
+            rows_ = v.args[1] if len(v.args) > 1 else None
+            if has_tr is None or rows_ is None:
+                ok_tr = False
+            elif has_tr:
+                e_ = match_expr('self.transformer(%s, __FN)' % rv, rows_)
+                ok_tr = ok_tr and e_ is not None and fn is not None and u(e_['__FN']) == u(fn)
+            else:
+                ok_tr = ok_tr and u(rows_) == rv
+            seen_tr.add(has_tr)
+    run.check(n_val >= 1 and ok_pol, 'R20', pr.where, pr.qualname, 'schema_validator(res.res, it, field_names=field_names, on_error=self.on_error)',
               'the validator does not get the configured policy and the matched field names')
-    facts = Facts(pr, include_nested=False)
-    fv = facts.values_of('field_names')
-    run.check(len(fv) == 1 and u(fv[0]).startswith('self.field_names.get(') and 'res.res.name' in u(fv[0]), 'R20', pr.where,
+    run.check(n_val >= 1 and ok_names, 'R20', pr.where,
               pr.qualname, 'field_names = self.field_names.get(<this resource>)', 'field names of another resource are checked')
     # transform precedes cast: the iterator handed to the validator is the transformer's output when a transform exists
-    ok = False
-    if calls:
-        itn = pseudo(calls[0].args[1])
-        vals = facts.values_of(itn or '')
-        tr = [v for v in vals if isinstance(v, ast.Call) and u(v.func) == 'self.transformer']
-        ok = len(tr) == 1 and [pseudo(a) for a in tr[0].args] == [itn, 'field_names']
-        if ok:
-            stm = tr[0]._parent
-            cond = stm._parent
-            ok = isinstance(cond, ast.If) and u(cond.test) == 'self.transform is not None'
-    run.check(ok, 'R20', pr.where, pr.qualname, 'if self.transform is not None: it = self.transformer(it, field_names)',
+    run.check(n_val >= 1 and ok_tr and seen_tr == {True, False}, 'R20', pr.where, pr.qualname,
+              'if self.transform is not None: it = self.transformer(it, field_names)',
               'the transform is not applied to the rows before they are cast')
     tf = st.methods['transformer']
     loop, var, _ = observers.single_row_loop(ctx, tf, 'rows')
